@@ -72,6 +72,10 @@ type env struct {
 	// has left (a liveness defect that belongs to property C06, not to this one)
 	quiet   int32
 	simFini int32
+	// other: a second screen of the same kind in the same process (op OtherScreen): "concurrent use of one Screen" must not
+	// reach the state of another one (package-level tables shared between screens)
+	other     tcell.Screen
+	otherOnce sync.Once
 }
 
 func (e *env) stopped() bool { return atomic.LoadInt32(&e.stop) != 0 }
@@ -123,7 +127,42 @@ var ops = map[string]op{
 	"RegisterRuneFallback": func(e *env, r *rnd, i int) {
 		e.s.RegisterRuneFallback(runes[r.n(len(runes))], "x")
 	},
-	"UnregisterRuneFallback": func(e *env, r *rnd, i int) { e.s.UnregisterRuneFallback(runes[r.n(len(runes))]) },
+	"UnregisterRuneFallback": func(e *env, r *rnd, i int) {
+		if i%2 == 0 { // also fallbacks the package registers by default (a screen that never registered anything itself)
+			e.s.UnregisterRuneFallback([]rune{tcell.RuneHLine, tcell.RuneRArrow, tcell.RuneBullet, tcell.RuneDegree}[r.n(4)])
+			return
+		}
+		e.s.UnregisterRuneFallback(runes[r.n(len(runes))])
+	},
+	// a second screen created in the same process (same charset), drawing runes that need the fallback table and asking
+	// CanDisplay: it is never touched by the other loop
+	"OtherScreen": func(e *env, r *rnd, i int) {
+		e.otherOnce.Do(func() {
+			if e.sim != nil {
+				o := tcell.NewSimulationScreen(e.sim.CharacterSet())
+				if o.Init() == nil {
+					e.other = o
+				}
+				return
+			}
+			ti := *e.ti
+			o, err := tcell.NewTerminfoScreenFromTtyTerminfo(engines.NewFakeTty(20, 4), &ti)
+			if err == nil && o.Init() == nil {
+				e.other = o
+				go func() {
+					for o.PollEvent() != nil {
+					}
+				}()
+			}
+		})
+		if e.other == nil {
+			return
+		}
+		rr := []rune{tcell.RuneHLine, tcell.RuneRArrow, tcell.RuneBullet, tcell.RuneDegree, 0x2190, 0x2592}[r.n(6)]
+		e.other.SetContent(r.n(20), r.n(4), rr, nil, tcell.StyleDefault)
+		e.other.CanDisplay(rr, true)
+		e.other.Show()
+	},
 	"CanDisplay":             func(e *env, r *rnd, i int) { e.s.CanDisplay(runes[r.n(len(runes))], true) },
 	"Resize":                 func(e *env, r *rnd, i int) { e.s.Resize(0, 0, 10, 10) },
 	"HasKey":                 func(e *env, r *rnd, i int) { e.s.HasKey(tcell.Key(256 + r.n(80))) },
@@ -227,6 +266,32 @@ func newEnv(screen, cs string) (*env, error) {
 	}
 	e.s = s
 	return e, s.Init()
+}
+
+// touch reads every field of a delivered event through its accessors
+func touch(x tcell.Event) {
+	switch v := x.(type) {
+	case nil:
+	case *tcell.EventResize:
+		v.Size()
+		v.PixelSize()
+		v.When()
+	case *tcell.EventKey:
+		v.Key()
+		v.Rune()
+		v.Modifiers()
+		v.When()
+	case *tcell.EventMouse:
+		v.Position()
+		v.Buttons()
+		v.Modifiers()
+		v.When()
+	case *tcell.EventPaste:
+		v.Start()
+		v.When()
+	default:
+		x.When()
+	}
 }
 
 func paint(e *env) {
@@ -398,6 +463,8 @@ func main() {
 	}
 	// ---- pair mode ----
 	// poller
+	var held [6]tcell.Event
+	nheld := 0
 	go func() {
 		for {
 			x := e.s.PollEvent()
@@ -410,6 +477,13 @@ func main() {
 				continue
 			}
 			atomic.AddInt64(&ev, 1)
+			// an application HOLDS the events it was handed and reads them later, while other goroutines call the screen:
+			// the last few events are read again at every delivery
+			held[nheld%len(held)] = x
+			nheld++
+			for _, hx := range held {
+				touch(hx)
+			}
 		}
 	}()
 	// traffic into the library's own goroutines
